@@ -1,6 +1,8 @@
 package c11
 
 import (
+	"encoding/binary"
+	"encoding/hex"
 	"encoding/json"
 	"fmt"
 	"strings"
@@ -52,6 +54,8 @@ type Plan struct {
 	// Rejections > 0: after the rotations one more request is issued while the server goes through salts quickly: the
 	// request and each of its re-sent copies arrive just after their salt was retired, Rejections times in a row
 	Rejections int `json:",omitempty"`
+	// UID: the unique_id of the new_session_created notifications ("" a different one each time, "zero", "same")
+	UID string `json:",omitempty"`
 }
 
 type Rotation struct {
@@ -79,6 +83,7 @@ func build(src scen.Source, keys []refsrv.RSAKeyJSON, p Plan) (*scen.Scenario, e
 	} else {
 		sc = scen.NewResumed(src)
 	}
+	sc.RPC.NewSessionUID = p.UID
 	tag := 100
 	kindOf := func() string {
 		k := scen.ReqKinds[(tag/3)%len(scen.ReqKinds)]
@@ -259,6 +264,63 @@ func judge(sc *scen.Scenario, res *scen.Result, runErr error) (string, error) {
 			}
 		}
 	}
+	// (2b) a salt announced by new_session_created counts from the moment the client has dealt with the notification. The
+	// acknowledgement naming it is written after that (the client acknowledges a message when it is through with it, and
+	// every message is serialised and written under one lock), so that acknowledgement and everything the server receives
+	// after it on the connection carries the announced salt or a newer one
+	saltOrder := map[int64]int{}
+	announcedBy := map[int64]int64{} // msg_id of a new_session_created -> salt it announces
+	var pendingAnnounce []int64
+	mustCarry := map[int]int64{} // connection -> salt announced by an acknowledged notification
+	encSalt := map[int64]int64{}
+	for _, ev := range res.Events {
+		switch ev.Kind {
+		case "rotate", "new-session", "bad-salt":
+			var x int64
+			if n, _ := fmt.Sscanf(ev.Note, "salt=%d", &x); n == 1 {
+				if _, ok := saltOrder[x]; !ok {
+					saltOrder[x] = len(saltOrder) + 1
+				}
+				if ev.Kind == "new-session" {
+					pendingAnnounce = append(pendingAnnounce, x)
+				}
+			}
+		case "sent":
+			if ev.Ctor == "9ec20908" && len(pendingAnnounce) > 0 {
+				announcedBy[ev.MsgID] = pendingAnnounce[0]
+				pendingAnnounce = pendingAnnounce[1:]
+			}
+		case "enc":
+			encSalt[ev.MsgID] = ev.Salt
+			if b, err := hex.DecodeString(ev.Body); err == nil && ev.Ctor == "62d6b459" && len(b) >= 12 {
+				// an acknowledgement (the server reads it whether or not it then rejects the message for its salt)
+				for k := 12; k+8 <= len(b); k += 8 {
+					if x, ok := announcedBy[int64(binary.LittleEndian.Uint64(b[k:]))]; ok {
+						if saltOrder[ev.Salt] < saltOrder[x] {
+							return "violation", fmt.Errorf("the acknowledgement of the new_session_created that announced salt %d was itself sent under the older salt %d: the announced salt was not taken over", x, ev.Salt)
+						}
+						if saltOrder[mustCarry[ev.Conn]] < saltOrder[x] {
+							mustCarry[ev.Conn] = x
+						}
+					}
+				}
+			}
+			if x, ok := mustCarry[ev.Conn]; ok && saltOrder[ev.Salt] < saltOrder[x] {
+				return "violation", fmt.Errorf("the client had acknowledged the new_session_created that announced salt %d, yet its next message %d went out under the older salt %d: the announced salt was not taken over", x, ev.MsgID, ev.Salt)
+			}
+		case "ack":
+			for _, id := range ev.IDs {
+				if x, ok := announcedBy[id]; ok {
+					if y, ok := encSalt[ev.MsgID]; ok && saltOrder[y] < saltOrder[x] {
+						return "violation", fmt.Errorf("the acknowledgement of the new_session_created that announced salt %d was itself sent under the older salt %d: the announced salt was not taken over", x, y)
+					}
+					if saltOrder[mustCarry[ev.Conn]] < saltOrder[x] {
+						mustCarry[ev.Conn] = x
+					}
+				}
+			}
+		}
+	}
 	// (5) the adopted salt is written to the session store
 	for _, ev := range res.Events {
 		if ev.Kind == "session-file" {
@@ -369,7 +431,7 @@ func classes(p Plan) ([]string, bool) {
 			cls = append(cls, "rotation-with-nothing-pending")
 		}
 		if r.NewSession {
-			cls = append(cls, "salt-by-new_session_created")
+			cls = append(cls, "salt-by-new_session_created", "new_session_created:unique_id="+map[string]string{"": "fresh", "zero": "0", "same": "repeated"}[p.UID])
 		}
 		if r.HoldRejected && r.Rejected > 0 && !r.NewSession {
 			cls = append(cls, "directed:rejection-while-sender-in-send-path")
@@ -414,6 +476,7 @@ func genPlan(t *rapid.T) Plan {
 			AnswerNow: rapid.IntRange(0, 6).Draw(t, "answernow"), NewSession: rapid.IntRange(0, 5).Draw(t, "newsession") == 0, HoldRejected: rapid.IntRange(0, 2).Draw(t, "holdrejected") == 0,
 			Order: rapid.Uint64().Draw(t, "order")})
 	}
+	p.UID = rapid.SampledFrom([]string{"", "", "zero", "same"}).Draw(t, "new-session-uid")
 	p.AckRejected = rapid.IntRange(0, 2).Draw(t, "ackrejected") == 0
 	p.StoreFault = rapid.IntRange(0, 3).Draw(t, "storefault") == 0
 	if rapid.IntRange(0, 2).Draw(t, "rolling") == 0 {
@@ -475,6 +538,13 @@ func TestC11(t *testing.T) {
 				}
 			}
 		}
+		// salts announced by new_session_created, under every kind of unique_id, once and twice in a row
+		for _, uid := range []string{"", "zero", "same"} {
+			for r := 0; r <= 1; r++ {
+				plans = append(plans, Plan{UID: uid, Rotations: []Rotation{{Accepted: 1, Rejected: r, AnswerNow: 9, NewSession: true}}},
+					Plan{UID: uid, Rotations: []Rotation{{Accepted: r, Rejected: 0, AnswerNow: 9, NewSession: true}, {Accepted: 1, Rejected: r, AnswerNow: 9, NewSession: true}}})
+			}
+		}
 		for i := range plans {
 			plans[i].AckRejected = i%3 == 1
 			if i%6 == 1 {
@@ -484,7 +554,7 @@ func TestC11(t *testing.T) {
 		}
 		stride := run.Pick(5, 1)
 		for i, p := range plans {
-			if i%stride != 0 && len(p.Rotations) > 1 {
+			if i%stride != 0 && len(p.Rotations) > 1 && !p.Rotations[0].NewSession {
 				continue
 			}
 			idx++
